@@ -209,6 +209,8 @@ func soloRun(cs *C18Case, c int, gen *RNG, length int, adversarial bool, st *C18
 	return prog, outs, mutated
 }
 
+var lastConc *concResult
+
 type concResult struct {
 	outs      [][]Outcome
 	sharedMut string
@@ -301,7 +303,7 @@ func concRun(cs *C18Case, sr *RNG, replay bool, st *C18Stats) *concResult {
 			d = fnvU64(fnvU64(d, uint64(o.St)), o.H)
 		}
 	}
-	d = fnvU64(d, S.sig)
+	d = fnvU64(d, S.sigK)
 	d = fnvU64(d, P.digest)
 	res.digest = d
 	if st != nil {
@@ -381,6 +383,7 @@ func execC18(cs *C18Case, tier string, replay bool, st *C18Stats) (*Violation, u
 	}
 	sr := r.Fork(0x5c4ed)
 	res := concRun(cs, &sr, replay, st)
+	lastConc = res
 	if st != nil {
 		st.Runs++
 		st.Clients[cs.Clients]++
@@ -585,7 +588,23 @@ func workC18(res *WorkerResult, start time.Time) {
 		v, dg := execC18(cs, *flagTier, false, st)
 		res.Done++
 		if *flagDigests {
-			fmt.Printf("%d %016x %v\n", run, dg, v != nil)
+			fmt.Printf("%d %016x %v", run, dg, v != nil)
+			if *flagVerbose && os.Getenv("VERIF_DUMP") != "" {
+				for c := range cs.Programs {
+					for k, o := range lastConc.outs[c] {
+						fmt.Printf("\n   c%d.%d %s %s", c, k, cs.Programs[c][k].Name, outStr(o))
+					}
+				}
+			}
+			if *flagVerbose && os.Getenv("VERIF_DUMP") == "2" {
+				for _, sw := range cs.Tape {
+					fmt.Printf("\n   sw %+v", sw)
+				}
+			}
+			if *flagVerbose {
+				fmt.Printf(" sig=%016x pool=%016x yields=%d switches=%d clients=%d", S.sig, P.digest, S.total, S.switches, cs.Clients)
+			}
+			fmt.Println()
 			continue
 		}
 		if raceEnabled && raceLogSize() > logBefore {
